@@ -1,4 +1,5 @@
 import Rosmar.Proofs.ViewLemmas
+import Rosmar.Proofs.Collate
 
 /-!
 # C12 — A non-stale view query equals the map function applied to the current documents
@@ -159,6 +160,17 @@ theorem C12_query_meets_spec_when_collators_agree (p : Params) (red : String) (d
     have hb : bounds p = (none, true, none, true) := by unfold bounds; simp [hks]
     have hft : ∀ l : List VRow, l.filter (fun _ => true) = l := fun l => List.filter_eq_self.mpr (fun _ _ => rfl)
     simp only [hb, hd, hl, takeLimit, geMin, leMax, Bool.false_eq_true, if_false, Bool.and_self, hft, filterKeys]
+
+/-- **With every emitted key and every requested key free of objects, the query as rosmar runs it is the specification** – for
+`keys` (not combined with descending / limit) and grouping too: sg-bucket's Go-value collator provably agrees with the JSON collation
+on such values (`collateGo_eq_collate`). -/
+theorem C12_query_meets_spec_objfree (p : Params) (red : String) (docs : Docs) (m : Nat)
+    (hk : p.keys.isSome → p.descending = false ∧ p.limit = none)
+    (hidx : ∀ r ∈ flatten (freshIndex docs m), r.key.objFree = true)
+    (hkeys : ∀ ks, p.keys = some ks → ∀ t ∈ ks, t.objFree = true) :
+    queryRows p red (freshIndex docs m) = specRows p red docs m := by
+  rw [queryRows_eq_with_collate p red _ hidx hkeys]
+  exact C12_query_meets_spec_when_collators_agree p red docs m hk
 
 /-! ### The full statement is false: WithMeta writes (open known finding F11) -/
 
